@@ -553,6 +553,8 @@ class CalculatorReads:
         self.hparams, self.hfields = hamiltonian_fields(prog, cls)
         self.extra = set(extra_hamiltonian_exprs)
         self.all_hfields = all_hamiltonian_fields(prog)
+        self.freq_axis_fields = set()
+        self.fattrs = set()
         self.methods = {}
         for b in reversed([x for x in prog.mro(cls) if x is not None]):
             if b.module.name.startswith("quantarhei"):
@@ -560,6 +562,20 @@ class CalculatorReads:
                     self.methods[nme] = fn
         self._callers = None
         self.sites = []           # (FuncInfo, node, description, protection or None)
+        # attributes of self that hold a frequency axis: assigned from X.get_FrequencyAxis() or FrequencyAxis(...)
+        fa = None
+        for m_ in prog.modules.values():
+            if m_.name == "quantarhei.core.frequency" and "FrequencyAxis" in m_.classes:
+                fa = m_.classes["FrequencyAxis"]
+        if fa is not None:
+            self.fattrs = converted_attributes(prog, fa)
+            for fn in self.methods.values():
+                for n in walk_no_nested(fn.node):
+                    if isinstance(n, ast.Assign) and isinstance(n.value, ast.Call) \
+                            and call_name(n.value) in ("get_FrequencyAxis", "FrequencyAxis"):
+                        for t_ in n.targets:
+                            if isinstance(t_, ast.Attribute) and isinstance(t_.value, ast.Name) and t_.value.id == "self":
+                                self.freq_axis_fields.add(t_.attr)
         self._scan()
 
     # -- which expressions denote the Hamiltonian inside a method
@@ -619,6 +635,31 @@ class CalculatorReads:
                 and isinstance(x.ctx, ast.Load)]
         return bool(uses) and all(self._shape_only(pm, x) for x in uses)
 
+    def _reconverted(self, fn, pm, n):
+        """the number read in the caller's units is handed straight back to convert_*_2_internal_u (directly,
+        or through one local all of whose uses are arguments of such a call): a consistent use of the
+        current units, not a calculation with them"""
+        def in_conv(x):
+            p = pm.get(x)
+            while p is not None and not isinstance(p, ast.stmt):
+                if isinstance(p, ast.Call) and (call_name(p) or "").endswith("2_internal_u"):
+                    return True
+                p = pm.get(p)
+            return False
+        if in_conv(n):
+            return True
+        p = pm.get(n)
+        while p is not None and not isinstance(p, ast.stmt):
+            p = pm.get(p)
+        if isinstance(p, ast.Assign) and len(p.targets) == 1 and isinstance(p.targets[0], ast.Name):
+            var = p.targets[0].id
+            stores = [x for x in walk_no_nested(fn.node) if isinstance(x, ast.Name) and x.id == var
+                      and isinstance(x.ctx, ast.Store)]
+            uses = [x for x in walk_no_nested(fn.node) if isinstance(x, ast.Name) and x.id == var
+                    and isinstance(x.ctx, ast.Load)]
+            return len(stores) == 1 and bool(uses) and all(in_conv(x) or self._shape_only(pm, x) for x in uses)
+        return False
+
     def _scan(self):
         for fn in self.methods.values():
             names = self._typed_names(fn)
@@ -632,6 +673,12 @@ class CalculatorReads:
                     if self._shape_only(pm, n) or self._local_shape_only(fn, pm, n):
                         continue
                     desc = norm(n)
+                elif isinstance(n, ast.Attribute) and isinstance(n.ctx, ast.Load) and n.attr in self.fattrs \
+                        and isinstance(n.value, ast.Attribute) and isinstance(n.value.value, ast.Name) \
+                        and n.value.value.id == "self" and n.value.attr in self.freq_axis_fields:
+                    if self._shape_only(pm, n) or self._local_shape_only(fn, pm, n):
+                        continue
+                    desc = norm(n)
                 elif isinstance(n, ast.Call) and isinstance(n.func, ast.Attribute) and n.func.attr == "at" \
                         and isinstance(n.func.value, ast.Name) and n.func.value.id in freq:
                     desc = norm(n.func) + "()"
@@ -639,6 +686,8 @@ class CalculatorReads:
                         and not (isinstance(n.func.value, ast.Call) and call_name(n.func.value) == "super"):
                     desc = norm(n.func) + "()"
                 if desc is None:
+                    continue
+                if not in_int_context(pm, n) and self._reconverted(fn, pm, n):
                     continue
                 self.sites.append([fn, n, desc, in_int_context(pm, n)])
         for s in self.sites:
